@@ -303,6 +303,29 @@ func c11Run(c c11Case, r *hx.Rec) error {
 	if !reflect.DeepEqual(md.GetPayload(), wantLib) {
 		return fmt.Errorf("payload loaded from the dumped envelope differs from what was set:\n got  %#v\n want %#v", md.GetPayload(), wantLib)
 	}
+
+	// (e) the other direction: an envelope of another implementation, whose payload is the same document
+	// written its way (member order, indentation, escapes as in the legacy variant above), signed over those bytes
+	foreign := hx.WriteJSONVariant(hx.NormalizeGeneric(jv), c.Style)
+	k := hx.PoolKey(c.Key)
+	entry, serr := hx.HarnessSignDSSE(k, hx.InTotoPayloadType, foreign)
+	if serr != nil {
+		return nil
+	}
+	fpath := filepath.Join(dir, "foreign-dsse.json")
+	if err := hx.WriteDSSEFile(fpath, hx.InTotoPayloadType, foreign, []map[string]any{entry}); err != nil {
+		return nil
+	}
+	fmd, err := intoto.LoadMetadata(fpath)
+	if err != nil {
+		return fmt.Errorf("LoadMetadata refuses a signed envelope whose payload is the same metadata as a valid JSON document in another style (%+v): %v; payload %.200q", c.Style, err, foreign)
+	}
+	if !reflect.DeepEqual(fmd.GetPayload(), wantLib) {
+		return fmt.Errorf("payload of a foreign envelope (style %+v) loads as other metadata:\n got  %#v\n want %#v", c.Style, fmd.GetPayload(), wantLib)
+	}
+	if err := fmd.VerifySignature(k.Pub()); err != nil {
+		return fmt.Errorf("the standard DSSE signature over a payload written in another style (%+v) does not verify: %v", c.Style, err)
+	}
 	return nil
 }
 
